@@ -47,6 +47,8 @@ type GenOpts struct {
 	ForeignStructIdents    bool // identifiers inside literals of structs defined in another file (Go backend resolves them in the wrong file: rejected)
 	SameNS                 bool // some files share one go namespace (one Go package from several IDL files)
 	Sparse                 bool // files randomly lack whole definition kinds (no enum / no const / no service / no typedef)
+	PkgClash               bool // two included files whose go namespaces end in the same word (import alias needed)
+	TypedefOnlyStructs     bool // typedefs only of struct-likes (for use_type_alias=false, which breaks typedef'd scalars)
 	TypedefEnumSel         bool // enum values selected through a typedef (Typedef.VALUE): accepted by the analyser, rejected by the Go backend
 }
 
@@ -267,6 +269,9 @@ func (g *gen) genType(f *File, depth int) *Type {
 			t = g.refTo(f, d)
 		}
 	case 11, 21, 22: // typedef
+		if g.o.TypedefOnlyStructs {
+			break // use_type_alias=false: a typedef'd struct used as a type does not compile (known finding); typedefs stay unused
+		}
 		if d := g.pickDef(f, func(d *Def) bool { return d.Kind == KTypedef }); d != nil {
 			t = g.refTo(f, d)
 		}
@@ -370,6 +375,13 @@ func (g *gen) genEnum(f *File) *Def {
 func (g *gen) genTypedef(f *File) *Def {
 	d := &Def{Kind: KTypedef, File: f, Ann: g.anns("def")}
 	d.Type = g.genType(f, g.o.MaxDepth-1)
+	if g.o.TypedefOnlyStructs {
+		sd := g.pickDef(f, func(x *Def) bool { return x.Kind == KStruct })
+		if sd == nil {
+			return nil
+		}
+		d.Type = g.refTo(f, sd)
+	}
 	d.Name = g.globalName(f, []string{"ID", "Name", "Tags", "Index", "Alias", "Map1", "Ref", "Raw"}, []string{"user_id", "URLList", "id_map"}, nil)
 	return d
 }
@@ -580,7 +592,11 @@ func intRange(cat string) (int64, int64) {
 // defined (no self reference).  Returns nil when no finite initializer exists (recursion).
 func (g *gen) genValue(f *File, t *Type, depth int, exclude *Def) *Value {
 	// reference to an existing constant of the same type
-	if depth < 3 && g.noIdent == 0 && g.rng.Chance(1, 6) {
+	refChance := 6
+	if g.o.PkgClash {
+		refChance = 3
+	}
+	if depth < 3 && g.noIdent == 0 && g.rng.Chance(1, refChance) {
 		if c := g.pickDef(f, func(d *Def) bool {
 			return d.Kind == KConst && d != exclude && d.Value != nil && sameType(d.Type, t) && constDependsOn(d, exclude) == false
 		}); c != nil {
@@ -757,6 +773,13 @@ func (g *gen) genValue(f *File, t *Type, depth int, exclude *Def) *Value {
 	return nil
 }
 
+func hasRef(t *Type) bool {
+	if t == nil {
+		return false
+	}
+	return t.Ref != nil || hasRef(t.Key) || hasRef(t.Elem)
+}
+
 func constDependsOn(d, target *Def) bool {
 	if target == nil {
 		return false
@@ -874,7 +897,7 @@ func Generate(rng *vlib.Rng, o GenOpts) *Program {
 		f := g.p.Files[i]
 		// includes: subset of later files
 		for j := i + 1; j < o.Files; j++ {
-			if j == i+1 || rng.Chance(1, 2) {
+			if j == i+1 || rng.Chance(1, 2) || o.PkgClash && i == 0 && j <= 2 {
 				inc := g.p.Files[j]
 				if o.SameBase {
 					// two includes with the same prefix in one file would make prefix.Name ambiguous only if names clash; keep names disjoint below
@@ -897,6 +920,9 @@ func Generate(rng *vlib.Rng, o GenOpts) *Program {
 		nsName := "vf." + strings.ReplaceAll(strings.TrimSuffix(f.Path, ".thrift"), "/", ".")
 		if nsName == "vf.main" {
 			nsName = "vf.mainpkg"
+		}
+		if o.PkgClash && o.Files >= 3 && (i == 1 || i == 2) {
+			nsName = fmt.Sprintf("vf.p%d.common", i)
 		}
 		if o.SameNS && i+1 < o.Files && sameNSPick {
 			// share the package of the next file (which this file includes): global names must be disjoint
@@ -945,7 +971,9 @@ func Generate(rng *vlib.Rng, o GenOpts) *Program {
 		nS := o.Structs
 		for k := 0; k < nS; k++ {
 			if rng.Chance(1, 2) {
-				f.Defs = append(f.Defs, g.genTypedef(f))
+				if td := g.genTypedef(f); td != nil {
+					f.Defs = append(f.Defs, td)
+				}
 			}
 			kind := KStruct
 			if o.Unions && k%4 == 2 {
@@ -957,7 +985,9 @@ func Generate(rng *vlib.Rng, o GenOpts) *Program {
 			f.Defs = append(f.Defs, g.genStructLike(f, kind))
 		}
 		if !sparse() {
-			f.Defs = append(f.Defs, g.genTypedef(f))
+			if td := g.genTypedef(f); td != nil {
+				f.Defs = append(f.Defs, td)
+			}
 		}
 		if o.TypedefChains {
 			for k := rng.Range(1, 4); k > 0; k-- {
@@ -1008,6 +1038,35 @@ func Generate(rng *vlib.Rng, o GenOpts) *Program {
 		if o.Consts && !sparse() {
 			for k := rng.Range(2, 6); k > 0; k-- {
 				f.Defs = append(f.Defs, g.genConst(f))
+			}
+		}
+		if o.PkgClash && o.Files >= 3 && i == 0 {
+			// the main file refers to same-named constants of both colliding packages
+			for _, c1 := range g.p.Files[1].DefsOf(KConst) {
+				c2 := g.p.Files[2].Find(c1.Name)
+				if c2 == nil || c2.Kind != KConst || hasRef(c1.Type) || hasRef(c2.Type) {
+					continue
+				}
+				for _, c := range []*Def{c1, c2} {
+					nc := &Def{Kind: KConst, File: f, Type: c.Type}
+					nc.Value = &Value{Kind: VIdent, Ident: c.File.Prefix() + "." + c.Name, ToConst: c}
+					nc.Name = g.globalName(f, []string{"from_a", "from_b", "picked_a", "picked_b"}, nil, nil)
+					f.Defs = append(f.Defs, nc)
+				}
+			}
+		}
+		if o.PkgClash && o.Files >= 3 && i == 1 {
+			// same constant names in the two packages whose names collide
+			for _, c2 := range g.p.Files[2].DefsOf(KConst) {
+				if g.used[f][c2.Name] || hasRef(c2.Type) {
+					continue
+				}
+				nc := &Def{Kind: KConst, File: f, Name: c2.Name, Type: c2.Type}
+				nc.Value = g.genValue(f, nc.Type, 0, nc)
+				if nc.Value != nil {
+					g.used[f][c2.Name] = true
+					f.Defs = append(f.Defs, nc)
+				}
 			}
 		}
 		if o.Defaults {
